@@ -1252,7 +1252,7 @@ class Container:
         if quantity_value <= 0:
             raise ValueError("Quantity must be positive.")
 
-        if solute not in source.contents:
+        if source.contents.get(solute, 0) <= 0:
             raise ValueError(f"Source container does not contain {solute.name}.")
 
         if solvent == solute:
@@ -1275,6 +1275,8 @@ class Container:
         m_x = Unit.convert_from_storage(source.contents.get(solute, 0), 'mol') / (volume / 1000)
 
         if isinstance(solvent, Container):
+            if solvent.volume <= 0:
+                raise ValueError("Solvent container is empty.")
             mass = sum(Unit.convert_from(substance, value, storage_unit(substance), 'g') for substance, value in
                        solvent.contents.items())
             moles = sum(Unit.convert_from(substance, value, storage_unit(substance), 'mol') for substance, value in
